@@ -6,7 +6,7 @@
     Derived notions: Actor/SpecLife.v.  Statements only; proofs in Actor/ProofsLife*.v. *)
 From Coq Require Import List NArith ZArith Bool.
 From Vivid Require Import Base.Tm Actor.Core Actor.CoreRun Actor.SpecLife Actor.ProofsLife Actor.ProofsLifeInv Actor.ProofsLifeSum
-  Actor.ProofsLifePhase Actor.ProofsLifeGen Actor.ProofsLifeTree Actor.ProofsLifeEx.
+  Actor.ProofsLifePhase Actor.ProofsLifeGen Actor.ProofsLifeTree Actor.ProofsLifeReg Actor.ProofsLifeTaint Actor.ProofsLifeKids Actor.ProofsLifeEx.
 Import ListNotations.
 Local Open Scope N_scope.
 
@@ -99,6 +99,61 @@ Theorem C06_reported_at_most_once scs evs a :
   (length (filter (is_cleanup_of a) (run_tr evs (init_with scs))) <= 1)%nat.
 Proof. exact (cleanup_at_most_once scs evs a). Qed.
 
+(** ============================ (c) children first, the whole subtree ============================ *)
+
+(** the tree invariant behind it: a registered actor is in its parent's children map (and the parent exists).
+    (The children entry is removed by identity - the fix of /repo 20ffea6; with removal by path the invariant was
+    false: a late OnKilled of a released child dropped a new child of the same name.) *)
+Theorem C06_registered_in_parent s c xc p :
+  reachable s -> get s c = Some xc -> a_parent xc = Some p -> alookup (reg s) (a_path xc) = Some c ->
+  exists xp, get s p = Some xp /\ alookup (a_children xp) (a_path xc) = Some c.
+Proof. exact (registered_in_parent s c xc p). Qed.
+
+(** an OnKilled naming a registered actor c is nowhere outside c's own context - not in anybody's queues, stash,
+    current envelope or pending instructions ([taint], Actor/ProofsLifeTaint.v): c releases its path before it
+    notifies anybody, so a parent only ever removes children that have released their path *)
+Theorem C06_no_early_killed_notice s c xc q y :
+  reachable s -> c <> 0%nat -> get s c = Some xc -> alookup (reg s) (a_path xc) = Some c ->
+  get s q = Some y -> q <> c -> taint c y = false.
+Proof. exact (no_early_killed_notice s c xc q y). Qed.
+
+(** every context but the root is registered or released (its cleanup has run) *)
+Theorem C06_registered_or_released s c xc :
+  reachable s -> get s c = Some xc -> c <> 0%nat -> alookup (reg s) (a_path xc) = Some c \/ released xc.
+Proof. exact (registered_or_released s c xc). Qed.
+
+(** children first: when p has been marked Killed, every context whose parent is p is released (Killed, cleanup
+    done: parent and watchers notified, ActorKilledEvent published) and its path is free *)
+Theorem C06_children_first s p xp c xc :
+  reachable s -> get s p = Some xp -> a_state xp = Killed ->
+  get s c = Some xc -> a_parent xc = Some p ->
+  released xc /\ alookup (reg s) (a_path xc) <> Some c.
+Proof. exact (children_first s p xp c xc). Qed.
+
+(** ... and so is every descendant ([below s p d]: d is reached from p by parent links): killing an actor
+    terminates its whole subtree, and an actor is marked Killed only after all of its descendants have been *)
+Theorem C06_subtree_terminated s p xp d :
+  reachable s -> get s p = Some xp -> a_state xp = Killed -> below s p d ->
+  exists xd, get s d = Some xd /\ released xd /\ alookup (reg s) (a_path xd) <> Some d.
+Proof. exact (subtree_terminated s p xp d). Qed.
+
+(** ============================ (d) the released name can be used again ============================ *)
+
+(** once the path is free ([C06_cleanup_releases_path]) ActorOf of the same name by the same parent succeeds; the
+    new context is registered under the path and its generation is above that of every earlier context of the path,
+    namely (generation of the latest one) + 1 *)
+Theorem C06_released_name_reusable s t h sp xp s' front :
+  reachable s -> get s (self_of t) = Some xp -> a_state xp <> Killed -> sp_prelaunch sp = true ->
+  alookup (reg s) (a_path xp ++ [sp_name sp]) = None ->
+  exec1 s t h (IAct (ASpawn sp)) = (s', front) ->
+  let p := a_path xp ++ [sp_name sp] in
+  exists g, get s' (length (actors s)) = Some (new_actor p g (Some (self_of t)) sp) /\
+            alookup (reg s') p = Some (length (actors s)) /\
+            (forall b xb, get s b = Some xb -> b <> 0%nat -> a_path xb = p -> a_gen xb < g) /\
+            ((exists b xb, get s b = Some xb /\ b <> 0%nat /\ a_path xb = p) ->
+             exists b xb, get s b = Some xb /\ a_path xb = p /\ g = a_gen xb + 1).
+Proof. exact (released_name_reusable s t h sp xp s' front). Qed.
+
 (** ============================ examples ============================ *)
 
 (** a parent (/1, context 1) with two children (/1/1, /1/2: contexts 2, 3) is killed by an external caller: all
@@ -123,6 +178,23 @@ Proof.
   eexists. split; [vm_compute; reflexivity|]. vm_compute. repeat split. discriminate.
 Qed.
 
+(** the hypotheses of [C06_subtree_terminated] are satisfiable: in the killed tree, 2 and 3 are below 1 *)
+Example C06_ex_below :
+  below tree_final 1 2 /\ below tree_final 1 3 /\ exists x, get tree_final 1 = Some x /\ a_state x = Killed.
+Proof.
+  split; [eapply below_child; vm_compute; reflexivity|]. split; [eapply below_child; vm_compute; reflexivity|].
+  eexists. split; vm_compute; reflexivity.
+Qed.
+
+(** name reuse: kill /1, then spawn /1 again: the second context has generation 1 *)
+Example C06_ex_reuse :
+  let scs := [[ASpawn (leaf 1); AKill (XHeld 0) false]; [ASpawn (leaf 1)]] in
+  let s1 := run_events (EvStart 0 :: sched 200 (step (init_with scs) (EvStart 0))) (init_with scs) in
+  let s2 := run_events (EvStart 1 :: sched 200 (step s1 (EvStart 1))) s1 in
+  err s2 = false /\ map (fun x => (a_path x, a_gen x, a_state x)) (actors s2) = [([], 0, Running); ([1], 0, Killed); ([1], 1, Running)] /\
+  reg s2 = [([1], 2%nat)].
+Proof. vm_compute. repeat split. Qed.
+
 Print Assumptions C06_killed_no_children.
 Print Assumptions C06_zombie_is_killed.
 Print Assumptions C06_pending_implies_busy.
@@ -135,3 +207,9 @@ Print Assumptions C06_cleanup_keeps_others.
 Print Assumptions C06_cleanup_unsubscribes.
 Print Assumptions C06_released_is_final.
 Print Assumptions C06_reported_at_most_once.
+Print Assumptions C06_registered_in_parent.
+Print Assumptions C06_no_early_killed_notice.
+Print Assumptions C06_registered_or_released.
+Print Assumptions C06_children_first.
+Print Assumptions C06_subtree_terminated.
+Print Assumptions C06_released_name_reusable.
